@@ -267,7 +267,10 @@ func (e *kvElection) Start(ctx context.Context) error {
 	wg.Add(1)
 	go func() {
 		defer wg.Done()
-		if err := e.attemptAcquire(); err != nil {
+		if err := e.attemptAcquire(run); err != nil {
+			if run.Err() != nil {
+				return // stopped meanwhile
+			}
 			e.recordAcquireAttempt("failed")
 			e.recordFailure(classifyErrorType(err))
 			// An acquisition left over from before a restart may have won
@@ -315,8 +318,8 @@ func (e *kvElection) attemptAcquireWithRetry(ctx context.Context) {
 			return
 		}
 
-		err := e.attemptAcquire()
-		if err == nil {
+		err := e.attemptAcquire(ctx)
+		if err == nil || ctx.Err() != nil {
 			return
 		}
 
@@ -354,7 +357,15 @@ func (e *kvElection) attemptAcquireWithRetry(ctx context.Context) {
 	}
 }
 
-func (e *kvElection) attemptAcquire() error {
+// attemptAcquire tries once to become leader: Create, and if the key exists
+// and this instance may preempt, the priority takeover's Get and Update. ctx is
+// the context of the run the attempt belongs to: once that run has been
+// stopped, no further store operation is started (one that is already in
+// flight when the stop comes is waited for, and its result dropped).
+func (e *kvElection) attemptAcquire(ctx context.Context) error {
+	if ctx.Err() != nil {
+		return ctx.Err()
+	}
 	token := uuid.New().String()
 
 	payload := leadershipPayload{
@@ -384,7 +395,10 @@ func (e *kvElection) attemptAcquire() error {
 	if err != nil {
 		// Key exists - check if we should attempt priority takeover
 		if e.cfg.AllowPriorityTakeover && e.cfg.Priority > 0 {
-			return e.attemptPriorityTakeover(payloadBytes)
+			if ctx.Err() != nil {
+				return ctx.Err()
+			}
+			return e.attemptPriorityTakeover(ctx, payloadBytes)
 		}
 
 		log := e.getLogger()
@@ -549,10 +563,13 @@ func (e *kvElection) becomeLeader(token string, rev uint64) {
 	}
 }
 
-func (e *kvElection) attemptPriorityTakeover(payloadBytes []byte) error {
+func (e *kvElection) attemptPriorityTakeover(ctx context.Context, payloadBytes []byte) error {
 	entry, err := e.kv.Get(e.key)
 	if err != nil {
 		return err
+	}
+	if ctx.Err() != nil {
+		return ctx.Err()
 	}
 
 	var currentPayload leadershipPayload
